@@ -3,7 +3,9 @@ spec/DvbStream.tla    grammar of a DVB VBI stream written from EN 300 472 / EN 3
                       TsConformant, UnitConformant, RawOf, Carried) and a transmitter (EncPesU, TsPackets)
 spec/DvbMuxRules.tla  what a caller may hand in / what must be accepted, size rounding
 spec/DvbMux.tla       state machine of vbi_dvb_mux_feed / vbi_dvb_mux_cor / vbi_dvb_mux_reset (continuity counter, raw line
-                      continuation, coroutine offsets with TS headers written on the fly) composed with DvbDemux
+                      continuation, coroutine offsets with TS headers written on the fly) and of the reconfiguration between two
+                      calls (vbi_dvb_mux_set_data_identifier / _set_pes_packet_size, also while a coroutine packet is partly
+                      delivered: it takes effect for the packets generated after it) composed with DvbDemux
 MC (MC_DvbMux):       WellFormed, CarriesInput, RejectSilent, RejectIsNoOp, Usable, CorEqualsCb, Continuity, RoundTrip over all
                       sequences of frames (legal, undefined line, raw lines, wrong order / service line, too big) x configurations
 TV (Trace_DvbMux):    the REAL multiplexer runs seeded frame sequences in many configurations (callback, coroutine with
@@ -24,14 +26,17 @@ MANIFEST = dict(
               "the grammar and the state machine with the real constants (trace validation), under ASan/UBSan",
     text="TLC checks for every sequence of up to three frames (legal ones on the first/last permitted lines, undefined line numbers, raw "
          "lines, wrong order, wrong service line, too big) and every configuration (data_identifier class, packet size range, PES/TS) fed "
-         "through the callback or the coroutine interface with any buffer sizes: emitted packets are conformant, carry exactly the input "
-         "lines, rejected frames emit nothing and change nothing, legal fitting frames are always accepted, both interfaces emit the same "
+         "through the callback or the coroutine interface with any buffer sizes, with the data_identifier and the packet size range changed "
+         "between any two calls (at every offset of a partly delivered coroutine packet): emitted packets are conformant for the "
+         "data_identifier in their own header, carry exactly the input lines, rejected frames emit nothing and change nothing, legal fitting frames are always accepted, both interfaces emit the same "
          "bytes, continuity counters are consecutive, and the demultiplexer model returns the accepted frames with their PTS. The real "
          "multiplexer is run on seeded sequences over data_identifiers 0x10-0x1F/0x99-0x9B, size ranges incl. unrounded values, PIDs, "
-         "33 bit PTS values and raw sampling parameters; every emitted byte sequence is judged by the TLA+ grammar and the real "
+         "33 bit PTS values and raw sampling parameters, and on coroutine runs whose first buffer takes every size 1-60 (around the "
+         "data_identifier byte) followed by a switch of the data_identifier class and a new size range before the rest of the packet is "
+         "read; every emitted byte sequence is judged by the TLA+ grammar and the real "
          "demultiplexer's output (PES route and internal TS route) must equal the accepted input frames.",
     note="Bounded: exhaustive only on the scaled layout (15 byte header, 5 byte data units, 10 byte TS payload, <= 3 frames); real-size runs are "
-         "seeded samples. Caption 625 is accepted on line 21 (EN 301 775 4.8.2, as coded), not on line 22 as the API comment says. Frames are "
+         "seeded samples; at most two reconfigurations per model behaviour. Caption 625 is accepted on line 21 (EN 301 775 4.8.2, as coded), not on line 22 as the API comment says. Frames are "
          "generated recognisable (every frame starts at or below line 15 and reaches line 16 or beyond). The internal TS demultiplexer does "
          "not deliver a first PES packet of exactly 184 bytes (it is complete before the receiver is synchronised): accepted by the trace "
          "specification, the public PES demultiplexer on the de-packetised payload is the oracle. Sliced id 0 (VBI_SLICED_NONE) is skipped by "
@@ -141,12 +146,53 @@ def script(cfg, frames, iface, bufs=None, rawpar=None, reset_before=()):
     return dvb.mux_script(c, frames, reset_before=reset_before)
 
 
+def setter_cmd(x):
+    return "D %d" % x[1] if x[0] == "did" else "Y %d %d" % (x[1], x[2])
+
+
+def reconf_script(cfg, frames, plan, iface, rawpar=None, keep=None):
+    """reconfiguration between calls.  plan[i] = dict(pre=[setter..], parts=[[b, [setter..]], ..], last=b) for frame i: the setters
+    `pre`, then vbi_dvb_mux_cor with a b byte buffer followed by its setters for every part, then the rest of the packet with
+    buffers of `last` bytes; setter = ["did", d] | ["size", min, max].  The callback variant calls the same setters in the same
+    order between its vbi_dvb_mux_feed calls (a reconfiguration takes effect for the packets generated after it).
+    keep: indices of the frames to hand in (the setters of the others stay)."""
+    s = ["M %s %d %s %d %d %d" % ("ts" if cfg["ts"] else "pes", cfg.get("pid", 0), iface, cfg["did"], cfg["min"], cfg["max"])]
+    if rawpar:
+        s.append("P %d %d" % tuple(rawpar))
+    for i, (lines, pts) in enumerate(frames):
+        pl = plan[i]
+        kept = keep is None or i in keep
+        s += [setter_cmd(x) for x in pl["pre"]]
+        if kept:
+            s += dvb.frame_cmds(lines)
+            if iface == "cb":
+                s.append("E %d %d" % tuple(pts))
+        for b, sets in pl["parts"]:
+            if kept and iface == "cor":
+                s.append("G %d %d %d" % (pts[0], pts[1], b))
+            s += [setter_cmd(x) for x in sets]
+        if kept and iface == "cor":
+            s.append("G %d %d %d *" % (pts[0], pts[1], pl["last"]))
+    return s
+
+
 def log_of(cfg, frames, res, cmp, reset_before=()):
     """merge what was asked with what the driver printed -> log records, emitted bytes per accepted frame"""
-    recs, outs, fi = [], [], 0
+    recs, outs, fi, part = [], [], 0, []
     for o in res["lines"]:
         a = o.get("a")
-        if a == "mux":
+        if a in ("send", "csend", "cpart") and fi >= len(frames):
+            return recs, outs, False
+        if a == "cpart":                                   # one coroutine call; the frame goes with the call that ends it
+            part += o["out"]
+            if not o["ok"] or o["left"] == 0:
+                fr, pts = frames[fi]
+                fi += 1
+                o = dict(o, frame=[dict(line=x["line"], id=x["id"], data=list(x["data"])) for x in fr], pts=list(pts))
+                if o["ok"]:
+                    outs.append(part)
+                part = []
+        elif a == "mux":
             o = dict(o, req=dict(did=cfg["did"], min=cfg["min"], max=cfg["max"]), cmp=bool(cmp))
         elif a in ("send", "csend"):
             fr, pts = frames[fi]
@@ -204,10 +250,73 @@ def build_groups(ctx, quick):
     return groups
 
 
+FIXED_DIDS, VAR_DIDS = [0x10, 0x15, 0x1F], [0x99, 0x9A, 0x9B]
+SIZES = [(184, 184), (184, 368), (368, 1472), (0, 65504), (100, 1000), (185, 400), (700, 300), (1472, 1472), (0, 99999), (184, 2000)]
+
+
+def reconf_groups(ctx, quick):
+    """vbi_dvb_mux_set_data_identifier / _set_pes_packet_size between two calls of the coroutine while a packet is partly
+    delivered: the first buffer of a frame takes every size 1 .. 60 (the data_identifier byte is byte 46 of a PES packet,
+    byte 50 of the first transport packet), then the data_identifier changes class (fixed <-> variable data unit length),
+    then the rest of the packet is read.  Run A does the same through the callback interface (setters between the frames),
+    B through the coroutine, C without the frames A rejected."""
+    rnd = random.Random(ctx.seed * 7919 + 11)
+    groups = []
+
+    def frames3(small):
+        return [(legal_frame(rnd, n_ttx=rnd.choice([1, 2, 3]) if small else None, raw=rnd.choice([0, 0, 0, 1])), rnd_pts(rnd)) for _ in range(3)]
+
+    def any_setter():
+        r = rnd.random()
+        if r < 0.45:
+            return ["did", rnd.choice(FIXED_DIDS + VAR_DIDS)]
+        if r < 0.55:
+            return ["did", rnd.choice([0x0F, 0x20, 0x98, 0x9C, 0, 0x110])]          # refused, nothing changes
+        return ["size"] + list(rnd.choice(SIZES))
+
+    combos = [(b, ts, to_fixed) for b in range(1, 61) for ts in (False, True) for to_fixed in (False, True)]
+    if quick:
+        combos = [(b, (b + ctx.seed) % 2 == 1, ((b + ctx.seed) // 2) % 2 == 1) for b in range(1, 61)]
+    for b, ts, to_fixed in combos:
+        old, new = (rnd.choice(VAR_DIDS), rnd.choice(FIXED_DIDS)) if to_fixed else (rnd.choice(FIXED_DIDS), rnd.choice(VAR_DIDS))
+        mn, mx = rnd.choice([(184, 368), (184, 1472), (368, 1472), (184, 65504)])
+        cfg = dict(ts=ts, pid=rnd.choice([0x10, 0x123, 0x1FFE]) if ts else 0, did=old, min=mn, max=mx)
+        plan = [dict(pre=[], parts=[[b, [["did", new]]]], last=rnd.choice([100, 188, 4096, 70000])),
+                dict(pre=[], parts=[[rnd.randint(1, 60), [["size"] + list(rnd.choice(SIZES))]], [rnd.randint(1, 200), [["did", old]]]], last=rnd.choice([184, 999, 70000])),
+                dict(pre=[any_setter()], parts=[], last=rnd.choice([188, 4096]))]
+        groups.append(dict(cfg=cfg, frames=frames3(mx < 600), rawpar=None, bufs=None, plan=plan, resets=(),
+                           label="reconf: first buffer %d, data_identifier 0x%02X -> 0x%02X mid-packet" % (b, old, new)))
+    # directed: every boundary of the two permitted ranges, requested between frames and in the middle of a packet
+    bounds = [0x0F, 0x10, 0x1F, 0x20, 0x98, 0x99, 0x9B, 0x9C]
+    for ts in (False, True):
+        r2 = random.Random(17)
+        cfg = dict(ts=ts, pid=0x77 if ts else 0, did=0x9A if ts else 0x11, min=184, max=1472)
+        frames = [(legal_frame(r2, n_ttx=2), (i % 8, 3600 * i)) for i in range(len(bounds))]
+        plan = [dict(pre=[["did", d]] if i % 2 == 0 else [], parts=[[48, [["did", d]]]] if i % 2 == 1 else [[30, [["size", 184 + 184 * i, 368 + 184 * i]]]], last=4096)
+                for i, d in enumerate(bounds if ts else bounds[::-1])]
+        groups.append(dict(cfg=cfg, frames=frames, rawpar=None, bufs=None, plan=plan, resets=(), label="reconf: data_identifier range boundaries"))
+    for k in range(20 if quick else 400):
+        cfg = rnd_cfg(rnd, k)
+        n = rnd.choice([3, 4, 5])
+        frames = rnd_sequence(rnd, cfg, n)
+        plan = []
+        for i in range(n):
+            parts = [[rnd.choice([rnd.randint(1, 60), rnd.randint(40, 55), rnd.randint(1, 400)]), [any_setter() for _ in range(rnd.choice([0, 1, 1, 2]))]]
+                     for _ in range(rnd.choice([0, 1, 1, 2, 3]))]
+            plan.append(dict(pre=[any_setter() for _ in range(rnd.choice([0, 0, 1]))], parts=parts, last=rnd.choice([100, 188, 777, 4096, 70000])))
+        rawpar = None if rnd.random() < 0.7 else rnd.choice([(132, 720), (132, 100), (400, 251), (132, 40)])
+        groups.append(dict(cfg=cfg, frames=frames, rawpar=rawpar, bufs=None, plan=plan, resets=(), label="reconf: random %d" % k))
+    return groups
+
+
 def run_groups(ctx, drv, groups):
     # phase 1: the multiplexer
     scripts, idx = [], []
     for gi, g in enumerate(groups):
+        if g.get("plan"):
+            scripts.append(reconf_script(g["cfg"], g["frames"], g["plan"], "cb", rawpar=g["rawpar"])); idx.append((gi, "A"))
+            scripts.append(reconf_script(g["cfg"], g["frames"], g["plan"], "cor", rawpar=g["rawpar"])); idx.append((gi, "B"))
+            continue
         scripts.append(script(g["cfg"], g["frames"], "cb", rawpar=g["rawpar"])); idx.append((gi, "A"))
         scripts.append(script(g["cfg"], g["frames"], "cor", bufs=g["bufs"], rawpar=g["rawpar"])); idx.append((gi, "B"))
     res = dvb.run_scripts(drv, scripts, timeout=600, workers=8)
@@ -217,6 +326,10 @@ def run_groups(ctx, drv, groups):
     for gi, g in enumerate(groups):
         oks = [o.get("ok") for o in g["resA"]["lines"] if o.get("a") == "send"]
         g["accepted"] = [f for f, ok in zip(g["frames"], oks) if ok]
+        if g.get("plan"):
+            keep = set(i for i, ok in enumerate(oks) if ok)
+            scripts.append(reconf_script(g["cfg"], g["frames"], g["plan"], "cb", rawpar=g["rawpar"], keep=keep)); idx.append((gi, "C"))
+            continue
         scripts.append(script(g["cfg"], g["accepted"], "cb", rawpar=g["rawpar"])); idx.append((gi, "C"))
         if g["resets"]:
             scripts.append(script(g["cfg"], g["frames"], "cb", rawpar=g["rawpar"], reset_before=g["resets"])); idx.append((gi, "D"))
@@ -233,7 +346,7 @@ def run_groups(ctx, drv, groups):
             if r is None:
                 continue
             recs, outs, complete = log_of(cfg, frames, r, cmp)
-            rp = dict(cfg=cfg, frames=[[fr, list(pts)] for fr, pts in g["frames"]], rawpar=g["rawpar"], bufs=g["bufs"], resets=list(g["resets"]), label=g["label"])
+            rp = replay_of(g)
             if r["stderr"]:
                 core.report_sanitizers(ctx, r["stderr"], replay=rp, in_scope=False)
             if r["crashed"] or not complete:
@@ -262,7 +375,10 @@ def run_groups(ctx, drv, groups):
 
 
 def replay_of(g):
-    return dict(cfg=g["cfg"], frames=[[fr, list(pts)] for fr, pts in g["frames"]], rawpar=g["rawpar"], bufs=g["bufs"], resets=list(g["resets"]), label=g["label"])
+    rp = dict(cfg=g["cfg"], frames=[[fr, list(pts)] for fr, pts in g["frames"]], rawpar=g["rawpar"], bufs=g["bufs"], resets=list(g["resets"]), label=g["label"])
+    if g.get("plan"):
+        rp["plan"] = g["plan"]
+    return rp
 
 
 def validate(ctx, groups, tag, nfiles=8):
@@ -302,10 +418,10 @@ def validate(ctx, groups, tag, nfiles=8):
             raise tlc.ToolFailure("trace validation failed outside the log: %s\n%s" % (path, (r.violation or {}).get("text", r.out[-1500:])))
         g, which, rec = where[at - 1]
         a = rec.get("a")
-        key = "tv:%s:%s" % (a, ("accepted" if rec.get("ok") else "rejected") if a in ("send", "csend") else rec.get("route", which))
-        if a in ("send", "csend") and which in ("B", "C"):
+        key = "tv:%s:%s" % (a, ("accepted" if rec.get("ok") else "rejected") if a in ("send", "csend", "cpart") else rec.get("route", which))
+        if a in ("send", "csend", "cpart") and which in ("B", "C"):
             key += ":cmp"
-        short = {k: (v if k not in ("pk", "out", "d") else "...") for k, v in rec.items()}
+        short = {k: (v if k not in ("pk", "out", "d") else "... %d" % len(v)) for k, v in rec.items()}
         ctx.violate("tv", key, "log line %d (%s of run %s, %s) is not a step of DvbMux/DvbStream\n%s\ncfg %s\nlast matched state:%s" % (
             at, a, which, g["label"], json.dumps(short)[:1500], g["cfg"], r.last_state[:3500]), replay_of(g))
     return n_ok
@@ -319,11 +435,11 @@ def run(ctx):
     ctx.assumptions += ["service_mask = all services; the callback returns TRUE", "raw frames: 625 lines, YUV420/Y8, 13.5 MHz, lines 7-23 / 320-336",
                         "frames are recognisable for a receiver (first line <= 15, last line >= 16)"]
     import concurrent.futures as cf
-    mcs = ["MC_DvbMux_q"] if quick else ["MC_DvbMux_t", "MC_DvbMux_t3"]
+    mcs = ["MC_DvbMux_q", "MC_DvbMux_rq"] if quick else ["MC_DvbMux_t", "MC_DvbMux_t3", "MC_DvbMux_rt"]
     with cf.ThreadPoolExecutor(1) as ex:
         fut = ex.submit(lambda: [tlc.run("MC_DvbMux", m, timeout=600 if quick else 3000, workers=4 if quick else 8, heap="6g") for m in mcs])
         drv = build.build_driver("drv_dvb")
-        groups = build_groups(ctx, quick)
+        groups = build_groups(ctx, quick) + reconf_groups(ctx, quick)
         run_groups(ctx, drv, groups)
         n_ok = validate(ctx, groups, "q" if quick else "t", nfiles=8 if quick else 16)
         rs = fut.result()
@@ -334,14 +450,17 @@ def run(ctx):
     ctx.validated(n_ok)
     for g in groups:
         for which in g["recs"]:
-            nacc = sum(1 for o in g["recs"][which] if o.get("a") in ("send", "csend") and o.get("ok"))
-            ctx.count_case([g["cfg"], [[x["line"], x["id"]] for fr, _ in g["frames"] for x in fr], which, g["bufs"] if which == "B" else None], nontrivial=nacc >= 2)
+            nacc = sum(1 for o in g["recs"][which] if o.get("a") in ("send", "csend") and o.get("ok") or o.get("a") == "cpart" and o.get("ok") and o.get("left") == 0)
+            ctx.count_case([g["cfg"], [[x["line"], x["id"]] for fr, _ in g["frames"] for x in fr], which, (g["bufs"] or g.get("plan")) if which == "B" else None,
+                            [[p["pre"], [s for _, ss in p["parts"] for s in ss]] for p in g["plan"]] if g.get("plan") else None], nontrivial=nacc >= 2)
     def nacc(g):
         return sum(1 for o in g["recs"].get("A", []) if o.get("a") == "send" and o.get("ok"))
-    good = [g for g in groups if nacc(g) >= 3 and nacc(g) < len(g["frames"])]
-    for g in good[:1] + [g for g in groups if g["label"].startswith("raw line too big")][:1] + [g for g in good if g["cfg"]["ts"] and g["rawpar"]][:1]:
+    good = [g for g in groups if nacc(g) >= 3 and nacc(g) < len(g["frames"]) and not g.get("plan")]
+    for g in good[:1] + [g for g in groups if g["label"].startswith("raw line too big")][:1] + [g for g in groups if g.get("plan") and nacc(g) >= 3 and g["cfg"]["ts"]][:1]:
         a = g["recs"].get("A", [])
         ctx.sample(dict(case=g["label"], cfg=g["cfg"], frames=[[x["line"] for x in fr] for fr, _ in g["frames"]],
+                        **(dict(coroutine_plan=g["plan"], coroutine_calls=[[o["b"], len(o["out"]), o["left"]] for o in g["recs"].get("B", []) if o.get("a") == "cpart"],
+                                setters=[{k: o[k] for k in o if k != "a"} for o in g["recs"].get("B", []) if o.get("a") in ("setdid", "setsize")]) if g.get("plan") else {}),
                         accepted=[o.get("ok") for o in a if o.get("a") == "send"],
                         packet_bytes=[sum(len(p) for p in o["pk"]) for o in a if o.get("a") == "send"],
                         demuxed=[[len(f["lines"]) for f in o["d"]] for o in a if o.get("a") == "demux"]))
@@ -352,7 +471,7 @@ def replay(ctx, rp):
     drv = build.build_driver("drv_dvb")
     r = rp["replay"]
     g = dict(cfg=r["cfg"], frames=[(fr, tuple(pts)) for fr, pts in r["frames"]], rawpar=tuple(r["rawpar"]) if r.get("rawpar") else None,
-             bufs=r["bufs"], resets=tuple(r.get("resets", ())), label=r.get("label", "replay"))
+             bufs=r["bufs"], resets=tuple(r.get("resets", ())), label=r.get("label", "replay"), plan=r.get("plan"))
     run_groups(ctx, drv, [g])
     for which in sorted(g["recs"]):
         for rec in g["recs"][which]:
